@@ -152,6 +152,9 @@ def wired_cases(rng):
         {"proxy": vc(hmac="hmacA"), "upstream": vc(hmac="hmacB"), "admin": vc(ecdsa="ecA256"), "tenants": [{"id": "t1", "cfg": vc(rsa="rsaA")}]},
         {"proxy": vc(rsa="rsaA", aud="aud1"), "upstream": vc(jwks=JWKS_RS), "admin": None, "tenants": None},
         {"proxy": None, "upstream": None, "admin": vc(hmac="hmacC", iss="iss1"), "tenants": [{"id": "t1", "cfg": vc(hmac="hmacB")}, {"id": "t2", "cfg": vc(ecdsa="ecA384")}]},
+        # key sets with audience / issuer: the same keys guard three ports that differ only in the audience and issuer they demand
+        {"proxy": vc(jwks=JWKS_RS, aud="aud1", iss="iss1"), "upstream": vc(jwks=JWKS_RS, aud="aud2"), "admin": vc(jwks=JWKS_RS, iss="iss2"),
+         "tenants": [{"id": "t1", "cfg": vc(jwks=JWKS_RS)}]},
     ]
     for li, L in enumerate(layouts):
         case = {"id": "wired-%d" % li, "wired": True}
